@@ -175,6 +175,129 @@ class C15(Property):
             if bad:
                 fails.append({"what": "%s cluster over an empty ring: %s did not report the no-node error" % (pkg, bad),
                               "replay": res[0]})
+        if ctx.tier == "thorough":
+            fails += self._free_monitor(ctx)
+        return fails
+
+    # ---- free-running goroutines under the race detector (thorough tier) --------------------------
+    def _gen_free(self, rng):
+        pool = rng.choice([["alpha", "beta", "gamma", "delta", "eps"], ["1", "11", "12", "2", "111"],
+                           ["node1", "node11", "node2", "node12", "node"], ["a", "a1", "a12", "b", "a2"]])
+        names = rng.sample(pool, rng.randint(2, 5))
+        nodes = [(S if rng.random() < 0.5 else ST)(x) for x in names]
+        if rng.random() < 0.4:
+            nodes.append(ST(names[0]))           # another value with the same repr
+        R = rng.choice([0, 0, 120, 150])
+        Reff = max(R, 100)
+        ps = probes(rng, 16)
+        shared = self._shared_strings([n["v"] for n in nodes], Reff)
+        if shared:
+            ps = [S(k) for k in rng.sample(shared, min(6, len(shared)))] + ps[:10]
+        threads = []
+        for _ in range(rng.randint(3, 6)):
+            ops = []
+            for _ in range(rng.randint(30, 80)):
+                x = rng.random()
+                k = rng.randrange(len(nodes))
+                if x < 0.55:
+                    ops.append(["get", rng.randrange(len(ps))])
+                elif x < 0.7:
+                    ops.append(["add", k])
+                elif x < 0.78:
+                    ops.append(["addr", k, rng.choice([0, 1, 7, 50, Reff, Reff + 9, -2])])
+                elif x < 0.88:
+                    ops.append(["addw", k, rng.choice([0, 1, 10, 50, 100, 150])])
+                else:
+                    ops.append(["remove", k])
+            threads.append(ops)
+        return {"kind": "free", "r": R, "nodes": nodes, "threads": threads, "probes": ps}
+
+    def _free_judge(self, case, obs):
+        """Every Get answer must be admissible for SOME linearisation point inside the call, given only the
+        invocation/response intervals of the membership calls.  Per repr, a layer (replicas, value) of an
+        add-type call c is
+          certain at the lookup  iff c returned before the lookup was invoked and every other membership call
+                                 on that repr returned before c was invoked or was invoked after the lookup returned;
+          possible               iff c was invoked before the lookup returned and no membership call on that
+                                 repr was invoked after c returned and returned before the lookup was invoked.
+        An answer v is admissible iff some possible layer with value v has a virtual-node hash h such that no
+        certain virtual-node hash lies strictly between the key's hash and h (cyclically); none is admissible
+        iff no layer is certain.  (Reprs are treated independently: a superset of the exact set, so a correct
+        ring is never flagged.)  Returns the list of inadmissible answers."""
+        R = obs["r"]
+        M = 2 ** 64
+        vh = [[int(x) for x in row] for row in obs["vh"]]
+        calls = {}     # repr -> [(inv, res, eff replicas or None for Remove, value idx)]
+        gets = []
+        for ops, evs in zip(case["threads"], obs["events"]):
+            for o, (inv, res, ans) in zip(ops, evs):
+                if o[0] == "get":
+                    gets.append((inv, res, o[1], ans))
+                else:
+                    eff = None if o[0] == "remove" else max(0, min(add_replicas(o, R), R))
+                    calls.setdefault(obs["reprs"][o[1]], []).append((inv, res, eff, o[1]))
+        big = 10 ** 18
+        gets += [(big, big, p, a) for p, a in enumerate(obs["gets"][0])]     # the final mapping
+        bad = []
+        for gi, gr, p, ans in gets:
+            hp = int(obs["ph"][p][0])
+            certain, possible = [], []       # hashes; (hashes, value)
+            for rp, cs in calls.items():
+                for c in cs:
+                    inv, res, eff, k = c
+                    if not eff:
+                        continue
+                    hs = vh[k][:eff]
+                    if res < gi and all(c2 is c or c2[1] < inv or c2[0] > gr for c2 in cs):
+                        certain += hs
+                    if inv < gr and not any(c2[0] > res and c2[1] < gi for c2 in cs):
+                        possible.append((hs, k))
+            dist = lambda x: (x - hp) % M
+            nearest = min((dist(x) for x in certain), default=None)
+            if ans == -1:
+                ok = nearest is None
+            elif ans < 0:
+                ok = False
+            else:
+                ok = any(k == ans and any(nearest is None or dist(x) <= nearest for x in hs) for hs, k in possible)
+            if not ok:
+                bad.append({"probe": p, "answer": ans, "interval": [gi, gr]})
+        return bad
+
+    def _free_monitor(self, ctx):
+        import random
+        out_bin = os.path.join(vlib.HARNESS, "bin", "c15-race")
+        cmd = ["go", "build", "-race", "-modfile", vlib.harness_modfile(), "-tags", "verif", "-o", out_bin]
+        ovp = vlib.write_overlay(OVERLAY, "build_c15race")
+        if ovp:
+            cmd += ["-overlay", ovp]
+        rc, out = vlib.sh(cmd + ["./cmd/c15"], cwd=vlib.HARNESS, env=vlib.goenv(), timeout=1200)
+        if rc != 0:
+            raise ExecError("c15 -race build failed: %s" % out[-1500:])
+        rng = random.Random(ctx.seed * 7919 + 15)
+        cases = [self._gen_free(rng) for _ in range(120)]
+        for i, c in enumerate(cases):
+            c["id"] = i
+        rc, out, res = vlib.go_run(out_bin, cases, tag="c15race", timeout=900,
+                                   env={"VERIF_C15_AS_MB": "0", "GORACE": "halt_on_error=0 exitcode=66"})
+        fails = []
+        if "DATA RACE" in out or rc == 66:
+            fails.append({"what": "the race detector reported a data race on ConsistentHash under free-running "
+                                  "Add/AddWithReplicas/AddWithWeight/Remove/Get goroutines: " + out[-1800:],
+                          "replay": {"kind": "free", "race_report": out[-6000:]}})
+        elif rc != 0 or len(res) != len(cases):
+            raise ExecError("c15 -race executor rc=%s: %s" % (rc, out[-2000:]))
+        ngets = 0
+        for c, o in zip(cases, res):
+            ngets += sum(1 for ops in c["threads"] for q in ops if q[0] == "get")
+            bad = self._free_judge(c, o)
+            if bad:
+                fails.append({"what": "free-running goroutines: Get answered a node that no linearisation of the "
+                                      "overlapping Add/Remove calls admits (or none / a foreign value): %s" % bad[:3],
+                              "replay": {"case": c, "observed": o, "inadmissible": bad[:10]}})
+                if len(fails) >= 3:
+                    break
+        ctx.notes.append("C15 free-running -race monitor: %d cases, %d Get answers judged against the admissible owners" % (len(cases), ngets))
         return fails
 
     def corpus(self):
